@@ -58,7 +58,10 @@ class Interp:
         if isinstance(t, TTuple):
             return VTuple([self.fresh_value(et, "%s_%d" % (hint, i)) for i, et in enumerate(t.elems)], t)
         if isinstance(t, TRec):
-            return VRec({fn: self.fresh_value(ft, "%s_%s" % (hint, fn)) for fn, ft in t.fields.items()}, t)
+            r = VRec({fn: self.fresh_value(ft, "%s_%s" % (hint, fn)) for fn, ft in t.fields.items()}, t)
+            if getattr(t, "variants", None) is not None:
+                p.assume(z3.Or([r.fields["_cls"].e == z3.StringVal(c) for c in t.variants]))
+            return r
         if isinstance(t, TList):
             arr = p.fresh(hint + "_arr", z3.ArraySort(z3.IntSort(), t.elem.sort()))
             n = p.fresh(hint + "_n", z3.IntSort())
@@ -118,6 +121,10 @@ class Interp:
 
     def _assume_wf_seq(self, v):
         et = v.et
+        if isinstance(et, TRec) and getattr(et, "variants", None) is not None:
+            i = z3.Int("wf_i")
+            tag = et.acc("_cls", z3.Select(v.arr, i))
+            self.path.assume(z3.ForAll([i], z3.Or([tag == z3.StringVal(c) for c in et.variants]), patterns=[z3.Select(v.arr, i)]))
         if isinstance(et, (TList, TMap, TSet)):
             i = z3.Int("wf_i")
             sub = z3.Select(v.arr, i)
@@ -362,6 +369,18 @@ class Interp:
         if isinstance(a, VRec) and isinstance(b, VRec):
             if a.t.nm != b.t.nm:
                 return z3.BoolVal(False)
+            vs = getattr(a.t, "variants", None)
+            if vs is not None:
+                # dataclass equality inside a tagged union: same class, equal fields of that class
+                tag = a.fields["_cls"].e
+                cs = [tag == b.fields["_cls"].e]
+                for f in a.t.fields:
+                    if f == "_cls":
+                        continue
+                    owners = [c for c, fs in vs.items() if f in fs]
+                    cs.append(z3.Implies(z3.Or([tag == z3.StringVal(c) for c in owners] + [z3.BoolVal(False)]),
+                                         self.eq(a.fields[f], b.fields[f])))
+                return z3.And(cs)
             return z3.And([self.eq(a.fields[f], b.fields[f]) for f in a.t.fields] + [z3.BoolVal(True)])
         if isinstance(a, VEmptyList) or isinstance(b, VEmptyList):
             o = b if isinstance(a, VEmptyList) else a
